@@ -39,6 +39,9 @@ pub trait CountMinValue: private::Sealed + Copy + Ord {
     /// Computes the absolute value of `self`.
     fn abs(self) -> Self;
 
+    /// Adds two values, saturating at the numeric bounds instead of overflowing.
+    fn saturating_add(self, other: Self) -> Self;
+
     /// Converts into `f64`.
     fn to_f64(self) -> f64;
 
@@ -73,6 +76,11 @@ macro_rules! impl_signed {
             #[inline(always)]
             fn add(self, other: Self) -> Self {
                 self + other
+            }
+
+            #[inline(always)]
+            fn saturating_add(self, other: Self) -> Self {
+                <$name>::saturating_add(self, other)
             }
 
             #[inline(always)]
@@ -129,6 +137,11 @@ macro_rules! impl_unsigned {
             #[inline(always)]
             fn add(self, other: Self) -> Self {
                 self + other
+            }
+
+            #[inline(always)]
+            fn saturating_add(self, other: Self) -> Self {
+                <$name>::saturating_add(self, other)
             }
 
             #[inline(always)]
